@@ -246,8 +246,8 @@ func Normalize(cond ssa.Value, truth bool) Rel {
 func GuardedBy(site ssa.Instruction, pred func(r Rel) bool) (bool, *Witness) {
 	fn := site.Parent()
 	w := Query{
-		Fn:     fn,
-		Target: func(in ssa.Instruction) bool { return in == site },
+		Fn:          fn,
+		Target:      func(in ssa.Instruction) bool { return in == site },
 		BarrierEdge: func(from, to *ssa.BasicBlock) bool { return EdgeHolds(from, to, pred) },
 	}.Find()
 	return w == nil, w
